@@ -155,6 +155,20 @@ pub mod parse_ax {
     use super::*;
     /// TRUSTED (A-STD): `str::parse::<F>` is a total function of the string (for u64: the decimal grammar of std)
     pub uninterp spec fn parsed<F>(s: Seq<char>) -> Option<F>;
+    // TRUSTED (A-STD): declaration of std's FromStr trait and ParseIntError type, and the contract of `str::parse`:
+    // total, Ok exactly on the strings of `parsed`, with that value. AckId::parse itself is verified against it.
+    #[verifier::external_trait_specification]
+    pub trait ExFromStr: Sized {
+        type ExternalTraitSpecificationFor: core::str::FromStr;
+        type Err;
+        fn from_str(s: &str) -> Result<Self, Self::Err>;
+    }
+    #[verifier::external_type_specification]
+    #[verifier::external_body]
+    pub struct ExParseIntError(core::num::ParseIntError);
+    pub assume_specification<F: core::str::FromStr>[ str::parse::<F> ](s: &str) -> (r: Result<F, F::Err>)
+        ensures r.is_ok() <==> parsed::<F>(s@).is_some(),
+                r.is_ok() ==> (match r { Ok(x) => Some(x), Err(_) => None }) == parsed::<F>(s@);
 }
 pub use parse_ax::parsed;
 impl AckId {
@@ -164,11 +178,9 @@ impl AckId {
 //@ ensures r.v() == value
 //@end
 
-    // TRUSTED (A-STD): AckId::parse is a 3-line adapter over `str::parse::<u64>`; Verus has no declaration of the
-    // FromStr trait / ParseIntError type. Assumed contract: total, a function of the string only.
-    // Cross-checked by the bounded Kani harness `ackid_parse_bounded` (strings up to 3 bytes).
+    // AckId::parse: the real body (`parse::<u64>().map(Self::new).map_err(..)`) is verified against the assumed
+    // contract of `str::parse` above (round 10: no longer an assumed contract of its own).
 //@fn src/subscriptions/ack_id.rs AckId::parse tags=C17
-//@ attr #[verifier::external_body]
 //@ ret r
 //@ # C17: total; malformed exactly when std's u64 parser rejects the string; the value is std's
 //@ ensures[C17] r.is_ok() <==> parsed::<u64>(raw_value@).is_some()
